@@ -332,6 +332,280 @@ def join_contract():
     )
 
 
+# ------------------------------------------------- construction sites: legacy PPT --
+CUM = z3.RecFunction("cum_len", z3.ArraySort(I, I), I, I)     # CUM(lens, i) = lens[0] + ... + lens[i-1]
+_a, _i = z3.Const("a!cum", z3.ArraySort(I, I)), z3.Int("i!cum")
+z3.RecAddDefinition(CUM, [_a, _i], z3.If(_i <= 0, 0, CUM(_a, _i - 1) + z3.Select(_a, _i - 1)))
+SLIDE_NO = fld("PptSlideContent", "slide_number", I)
+
+
+def seq_of_block_seqs(name):
+    """Arbitrary list[list[PptTextBlock]]: outer length n >= 0, inner lengths lens[k] >= 0."""
+    n = z3.Int(f"{name}.len")
+    lens = z3.Const(f"{name}.lens", z3.ArraySort(I, I))
+    blk = z3.Function(f"{name}.block", I, I, ext_sort("PptTextBlock"))
+
+    def inner(k):
+        return VSeq(z3.Select(lens, k), lambda j, k=k: VExt("PptTextBlock", blk(k, j)), ("obj", "PptTextBlock"))
+    kk = z3.Int("k!lens")
+    ok = z3.And(n >= 0, z3.ForAll([kk], z3.Select(lens, kk) >= 0))
+    return VSeq(n, inner, "blocks", tag=("lens", lens)), ok
+
+
+def lens_of(st, v):
+    """(length, Array k |-> len(v[k])) of a sequence of sequences."""
+    if isinstance(v, VRef):
+        v = st.obj(v.ref).data
+    if isinstance(v.tag, tuple) and v.tag and v.tag[0] == "lens":
+        return v.length, v.tag[1]
+    return v.length, z3.Lambda([K], v.elem(K).length)
+
+
+def p_block_seqs():
+    def mk(ex, st, name):
+        sq, ok = seq_of_block_seqs(name)
+        return [(ok, sq)]
+    return Maker(mk, desc="list[list[PptTextBlock]] (symbolic lengths)")
+
+
+def p_alist(ekind):
+    def mk(ex, st, name):
+        n = z3.Int(f"{name}.len")
+        es = X._sort_of_kind(ekind)
+        arr = z3.Const(f"{name}.at", z3.ArraySort(I, es))
+        sq = VSeq(n, lambda k: X._val(ekind, z3.Select(arr, k)), ekind)
+        ref = st.alloc(HeapObj("alist", sq, None, fresh=False), ex.refs)
+        return [(n >= 0, VRef(ref))]
+    return Maker(mk, desc=f"list of {ekind} (symbolic length)")
+
+
+def p_ppt_content():
+    from pyvc.verify import p_unk
+    return p_obj("PptContent", {"metadata": p_unk(), "slides": p_alist(("obj", "PptSlideContent")),
+                                "master_text": p_alist("str"), "all_text": p_alist("str"), "streams": p_unk()})
+
+
+def _alist_of(st, content, f):
+    return st.obj(st.obj(content.ref).data[f].ref).data
+
+
+def slides_numbered(sq: VSeq, lo=0):
+    """slide numbers of sq[lo:] are 1..: sq[lo+k].slide_number == k+1."""
+    k = z3.Int("k!sn")
+    return z3.ForAll([k], z3.Implies(z3.And(k >= 0, k < sq.length - lo), SLIDE_NO(sq.elem(lo + k).t) == k + 1))
+
+
+def build_slides_contract():
+    def s_views(c_or_lc, st):
+        content = c_or_lc.entry.lookup("content") if hasattr(c_or_lc, "i") else c_or_lc.args["content"]
+        return content
+
+    def outer_inv(lc):
+        content = lc.entry.lookup("content")
+        S, S0 = _alist_of(lc.st, content, "slides"), _alist_of(lc.entry, content, "slides")
+        A, A0 = _alist_of(lc.st, content, "all_text"), _alist_of(lc.entry, content, "all_text")
+        _n, lens = lens_of(lc.entry, lc.entry.lookup("slides_texts"))
+        i = lc.i
+        k = z3.Int("k!bo")
+        return Conj([
+            ("one-slide-per-entry", S.length == S0.length + i),
+            ("earlier-slides-kept", z3.ForAll([k], z3.Implies(z3.And(k >= 0, k < S0.length), S.elem(k).t == S0.elem(k).t))),
+            ("numbers", z3.ForAll([k], z3.Implies(z3.And(k >= 0, k < i), SLIDE_NO(S.elem(S0.length + k).t) == k + 1))),
+            ("all_text-count", A.length == A0.length + CUM(lens, i)),
+        ])
+
+    def inner_inv(lc):
+        # lc.entry: state at the entry of the inner loop (same iteration of the outer loop)
+        content = lc.entry.frames[0].env["content"]
+        A, A1 = _alist_of(lc.st, content, "all_text"), _alist_of(lc.entry, content, "all_text")
+        return Conj([("all_text-count", A.length == A1.length + lc.i)])
+
+    def ens(which):
+        def f(c):
+            if c.ex.contract is None or not c.ex.contract.target.endswith("::_build_slides_from_text_blocks"):
+                return z3.BoolVal(True)       # call site: the functional post-state (post_state) carries these facts
+            content = c.args["content"]
+            S, S0 = _alist_of(c.st, content, "slides"), _alist_of(c.entry, content, "slides")
+            A, A0 = _alist_of(c.st, content, "all_text"), _alist_of(c.entry, content, "all_text")
+            n, lens = lens_of(c.entry, c.args["slides_texts"])
+            k = z3.Int("k!be")
+            if which == "count":
+                return S.length == S0.length + n
+            if which == "kept":
+                return z3.ForAll([k], z3.Implies(z3.And(k >= 0, k < S0.length), S.elem(k).t == S0.elem(k).t))
+            if which == "numbers":
+                return z3.ForAll([k], z3.Implies(z3.And(k >= 0, k < n), SLIDE_NO(S.elem(S0.length + k).t) == k + 1))
+            if which == "all_text":
+                return A.length == A0.length + CUM(lens, n)
+            if which == "frame":
+                d, d0 = c.st.obj(content.ref).data, c.entry.obj(content.ref).data
+                same = all(d[f] is d0[f] or (isinstance(d[f], VRef) and isinstance(d0[f], VRef) and d[f].ref == d0[f].ref)
+                           for f in d0) and d.keys() == d0.keys()
+                mt = c.st.obj(d["master_text"].ref).data is c.entry.obj(d0["master_text"].ref).data
+                return z3.BoolVal(bool(same and mt))
+        return f
+
+    def post_state(ex, st, ctx):
+        """Call-site effect on `content` (the verified ensures, as a functional post-state)."""
+        content = ctx.args["content"]
+        old = ctx.entry.obj(content.ref)
+        S0 = ctx.entry.obj(old.data["slides"].ref).data
+        A0 = ctx.entry.obj(old.data["all_text"].ref).data
+        n, lens = lens_of(ctx.entry, ctx.args["slides_texts"])
+        news = z3.Function(fresh_name("new_slide"), I, ext_sort("PptSlideContent"))
+        j = z3.Int("j!new")
+        st.assume(z3.ForAll([j], SLIDE_NO(news(j)) == j + 1, patterns=[news(j)]))
+        L0, e0 = S0.length, S0.elem
+        S = VSeq(L0 + n, lambda k: VExt("PptSlideContent", z3.If(k < L0, e0(k).t, news(k - L0))), ("obj", "PptSlideContent"))
+        A = X.fresh_seq_like("str", "all_text")
+        st.assume(A.length == A0.length + CUM(lens, n))
+        st.assume(CUM(lens, n) >= 0)
+        d = dict(old.data)
+        d["slides"] = ex.new_alist(st, S)
+        d["all_text"] = ex.new_alist(st, A)
+        st.heap[content.ref] = HeapObj("obj", d, old.cls, old.fresh)
+        return NONE
+
+    return FnContract(
+        target=f"{PPT}::_build_slides_from_text_blocks",
+        params=[("content", p_ppt_content()), ("slides_texts", p_block_seqs())],
+        ensures=[("appends-one-slide-per-entry", ens("count")), ("earlier-slides-kept", ens("kept")),
+                 ("new-slides-numbered-1..n-in-order", ens("numbers")), ("all_text-grows-by-the-number-of-blocks", ens("all_text")),
+                 ("other-fields-untouched", ens("frame"))],
+        raises=[],
+        loops={0: LoopSpec(inv=outer_inv, label="slides"), 1: LoopSpec(inv=inner_inv, label="blocks")},
+        modifies=("content",),
+        result_maker=post_state,
+        note="slide k of slides_texts becomes a PptSlideContent numbered k (1-based), appended in order",
+    )
+
+
+def cum_nonneg_hyp(c):
+    """CUM(lens, i) >= 0 for non-negative lens: lemma (induction schema in lemmas())."""
+    _n, lens = lens_of(c.entry, c.args["slides_texts"])
+    i = z3.Int("i!cn")
+    return z3.ForAll([i], CUM(lens, i) >= 0, patterns=[CUM(lens, i)])
+
+
+def parse_ppt_contract():
+    def requires(c):
+        content = c.args["content"]
+        return z3.And(_alist_of(c.entry, content, "slides").length == 0, _alist_of(c.entry, content, "all_text").length == 0)
+
+    def numbered(c):
+        S = _alist_of(c.st, c.args["content"], "slides")
+        return slides_numbered(S)
+
+    return FnContract(
+        target=f"{PPT}::_parse_ppt_document",
+        params=[("data", Maker(lambda ex, st, name: VUnk(name), desc="bytes (opaque)")), ("content", p_ppt_content())],
+        requires=requires,
+        ensures=[("slide-numbers-are-1..len-without-repetition", numbered)],
+        raises=[Raises("Exception", sub=True, label="parser failures (failure surface is C01's)")],
+        modifies=("content",),
+        note="on a fresh PptContent the slides end up numbered 1..len(slides), whichever text source is used",
+    )
+
+
+def distribute_images_contract():
+    from pyvc.verify import p_unk
+
+    def requires(c):
+        S = _alist_of(c.entry, c.args["content"], "slides")
+        return slides_numbered(S)
+
+    def numbered(c):
+        o = c.st.obj(c.args["content"].ref)
+        if o.kind != "obj" or not isinstance(o.data.get("slides"), VRef) or c.st.obj(o.data["slides"].ref).kind != "alist":
+            return z3.BoolVal(False)
+        return slides_numbered(c.st.obj(o.data["slides"].ref).data)
+
+    def p_images():
+        def mk(ex, st, name):
+            n = z3.Int(f"{name}.len")
+            return [(n >= 0, VSeq(n, lambda k: VUnk("image"), "unk"))]
+        return Maker(mk, desc="list of images (symbolic length)")
+
+    return FnContract(
+        target=f"{PPT}::_distribute_images_to_slides",
+        params=[("content", p_ppt_content()), ("images", p_images())],
+        requires=requires,
+        ensures=[("slide-numbers-stay-1..len", numbered)],
+        raises=[Raises("Exception", sub=True, label="image objects are opaque here")],
+        modifies=("content",),
+    )
+
+
+def assumed_ppt_parsers():
+    """Record parsers of the PowerPoint stream: ASSUMED to return arbitrary well-typed results or raise."""
+    def r_slide_list(ex, st, ctx):
+        sq, ok = seq_of_block_seqs(fresh_name("slide_list_texts"))
+        st.assume(ok)
+        return sq
+
+    def r_containers(ex, st, ctx):
+        slides, ok1 = seq_of_block_seqs(fresh_name("container.slides"))
+        notes, ok2 = seq_of_block_seqs(fresh_name("container.notes"))
+        st.assume(z3.And(ok1, ok2))
+        master = X.fresh_seq_like(("obj", "PptTextBlock"), "container.master")
+        st.assume(master.length >= 0)
+        ref = st.alloc(HeapObj("dict", {"slides": slides, "notes": notes, "master": master}), ex.refs)
+        return VRef(ref)
+
+    def r_raw(ex, st, ctx):
+        sq = X.fresh_seq_like("str", "raw_texts")
+        st.assume(sq.length >= 0)
+        return sq
+
+    unk = Maker(lambda ex, st, name: VUnk(name), desc="bytes")
+    return [FnContract(target=f"{PPT}::{n}", params=[("data", unk)], result_maker=r, assumed=True, may_raise_any=True)
+            for n, r in (("_extract_slide_list_texts", r_slide_list), ("_parse_containers", r_containers),
+                         ("_extract_all_text_raw", r_raw))]
+
+
+# ---------------------------------------------------- construction site: RTF pages --
+def flush_page_contract():
+    """The closure `flush_page` of _RtfParser._strip_rtf_full_with_pages (free variables `self`,
+    `current_page` bound like parameters).  From the statement: every explicit page is one unit carrying
+    its 1-based source position, so every page break must open exactly one entry of `self.pages`,
+    empty or not; otherwise the pages behind an empty page are renumbered."""
+    def pages(st, c):
+        return st.obj(st.obj(c.args["self"].ref).data["pages"].ref).data
+
+    def one_entry(c):
+        return pages(c.st, c).length == pages(c.entry, c).length + 1
+
+    def kept(c):
+        P, P0 = pages(c.st, c), pages(c.entry, c)
+        k = z3.Int("k!fp")
+        return z3.ForAll([k], z3.Implies(z3.And(k >= 0, k < P0.length), P.elem(k).t == P0.elem(k).t))
+
+    def buffer_reset(c):
+        o = c.st.obj(c.args["current_page"].ref)
+        return o.data.length == 0 if o.kind == "alist" else z3.BoolVal(o.kind == "list" and not o.data)
+
+    return FnContract(
+        target=f"{RTF}::_RtfParser._strip_rtf_full_with_pages.<locals>.flush_page",
+        params=[("self", p_obj("_RtfParser", {"pages": p_alist("str")})), ("current_page", p_alist("str"))],
+        ensures=[("every-page-break-opens-exactly-one-page-entry", one_entry), ("earlier-pages-kept-in-place", kept),
+                 ("page-buffer-reset", buffer_reset)],
+        raises=[],
+        modifies=("self", "current_page"),
+        note="closure verified with its free variables as parameters",
+    )
+
+
+RESUB = z3.Function("re_sub", S, S, S, S)     # pattern.sub(repl, s): PY-RE total, uninterpreted
+
+
+def install_re(reg):
+    from pyvc import loader as _l
+    for name in ("_RE_MULTI_SPACE", "_RE_MULTI_NEWLINE"):
+        reg.module_consts[(RTF, name)] = VExt("RePattern", z3.Const(f"re:{name}", ext_sort("RePattern")))
+    pat = fun("re_pattern_text", ext_sort("RePattern"), S)
+    reg.method_models[("RePattern", "sub")] = lambda ex, st, o, a, k, n: [(st, VStr(RESUB(pat(o.t), a[0].t, a[1].t)))]
+
+
 # ------------------------------------------------------------ opaque members --
 def install_opaque():
     OP = X.UnitsExecutor.OPAQUE
@@ -375,7 +649,19 @@ def contracts(reg):
     for cls in FULLTEXT_FROM_UNITS:
         out.append(fulltext_contract(cls))
     out.append(join_contract())
+    out.append(build_slides_contract())
+    out.append(parse_ppt_contract())
+    out.append(distribute_images_contract())
+    out.extend(assumed_ppt_parsers())
+    install_re(reg)
+    out.append(flush_page_contract())
     return out
+
+
+from contracts import c03_flow  # noqa: E402
+
+EXTRA = [c03_flow.construction_sites, c03_flow.heading_iterators]
+REPLAY_UNKNOWN = True    # an obligation the solver leaves unknown is searched natively (replay/C03.py) before it is reported undecided
 
 
 TRUSTED = ["observation of a unit = (get_metadata().unit_number, get_text()) computed by the real accessor methods"]
